@@ -1240,6 +1240,17 @@ func writeSites(b *strings.Builder, root string, files []string, parsed map[stri
 				case *ast.FuncDecl:
 					if x.Body != nil {
 						collectSites(x.Body, rel, recvName(x), false, &sites, nil)
+						// functions of package unmarshal CALLED from a controller body run on the handler goroutine too
+						ast.Inspect(x.Body, func(n ast.Node) bool {
+							if c, ok := n.(*ast.CallExpr); ok {
+								if sel, ok := c.Fun.(*ast.SelectorExpr); ok {
+									if id, ok := sel.X.(*ast.Ident); ok && id.Name == "unmarshal" {
+										calls[sel.Sel.Name] = true
+									}
+								}
+							}
+							return true
+						})
 					}
 				case *ast.GenDecl:
 					for _, sp := range x.Specs {
